@@ -33,6 +33,9 @@ def gen_cases(tier, seed):
     # tokens whose signature has a zero top byte
     for i in range(2 if tier == "quick" else 12):
         yield {"seed": "%d:ck%d" % (seed, i), "tokens": 4, "craft": "key"}
+    # a key whose PEM text happens to contain a word a careless format sniffer might look for ("RSA") within its first lines
+    for i in range(1 if tier == "quick" else 4):
+        yield {"seed": "%d:pw%d" % (seed, i), "tokens": 2, "craft": "pemword"}
     # histories: the key pair at a path is generated AGAIN (keygen overwrites) and the signers are loaded again in the same process;
     # tokens handed over in a bytearray that the caller re-uses for the next challenge
     for i in range(2 if tier == "quick" else 10):
@@ -100,7 +103,42 @@ def _run_with_identity(case, rng, tmp, path, viol, stats, exp_user, exp_host):
     from adb_shell.auth.sign_pythonrsa import PythonRSASigner
     if True:
         crafted_note = None
-        if case.get("craft") == "key":
+        if case.get("craft") == "pemword":
+            from cryptography.hazmat.primitives.asymmetric import rsa as crsa
+            primes = []
+            for _ in range(100):
+                pn = crsa.generate_private_key(public_exponent=65537, key_size=2048).private_numbers()
+                primes += [pn.p, pn.q]
+            found = None
+            for i in range(len(primes)):
+                for j in range(i + 1, len(primes)):
+                    nn = primes[i] * primes[j]
+                    if nn.bit_length() != 2048:
+                        continue
+                    # bytes 36.. of the PKCS#8 DER are "01 00" + modulus; base64 char 48 starts at byte 36
+                    head = b"\x01\x00" + nn.to_bytes(256, "big")[:40]
+                    if b"RSA" in base64.b64encode(head)[:52]:
+                        found = (primes[i], primes[j])
+                        break
+                if found:
+                    break
+            if found:
+                p_, q_ = found
+                e_ = 65537
+                d_ = pow(e_, -1, (p_ - 1) * (q_ - 1))
+                key_obj = crsa.RSAPrivateNumbers(p_, q_, d_, d_ % (p_ - 1), d_ % (q_ - 1), pow(q_, -1, p_), crsa.RSAPublicNumbers(e_, p_ * q_)).private_key()
+                orig_gen = kg.rsa.generate_private_key
+                kg.rsa.generate_private_key = lambda *a, **k: key_obj
+                try:
+                    kg.keygen(path)
+                finally:
+                    kg.rsa.generate_private_key = orig_gen
+                with open(path, "rb") as f:
+                    if b"RSA" in f.read()[:128]:
+                        stats["keys_with_a_word_in_the_pem"] = 1
+            else:
+                kg.keygen(path)
+        elif case.get("craft") == "key":
             # recombine the primes of freshly generated keys into a 2048-bit key whose rr = 2^4096 mod n (or n0inv) starts with a zero byte,
             # and let the repository's keygen() produce its files from it (only the third-party generator is substituted)
             from cryptography.hazmat.primitives.asymmetric import rsa as crsa
@@ -190,11 +228,12 @@ def _run_with_identity(case, rng, tmp, path, viol, stats, exp_user, exp_host):
             viol.append({"mechanism": "comment", "detail": "public key comment is %r, expected %r (login name / host name, each falling back to 'unknown' on its own)" % (comment, exp_user + "@" + exp_host)})
         stats["comments_checked"] = stats.get("comments_checked", 0) + 1
         # ---- signers
-        signers = {
-            "PythonRSASigner": PythonRSASigner.FromRSAKeyPath(path),
-            "CryptographySigner": CryptographySigner(path),
-            "PycryptodomeAuthSigner": PycryptodomeAuthSigner(path),
-        }
+        signers = {}
+        for name_, make_ in (("PythonRSASigner", PythonRSASigner.FromRSAKeyPath), ("CryptographySigner", CryptographySigner), ("PycryptodomeAuthSigner", PycryptodomeAuthSigner)):
+            try:
+                signers[name_] = make_(path)
+            except Exception as ex:  # noqa
+                viol.append({"mechanism": "signer-load-failed:" + name_, "detail": "%s could not load the key pair that keygen() just wrote (%s: %s): the signers are not interchangeable for this key" % (name_, type(ex).__name__, str(ex)[:100])})
         for name, s in signers.items():
             g = s.GetPublicKey()
             gb = g.encode() if isinstance(g, str) else bytes(g)
